@@ -269,15 +269,15 @@ def shared_cases(seed, tier, boost=1):
             cfg.update(bad=None, base='', crumbs=False, localtoc=False)
             out.append(('split-levels', {'doc': doc, 'cfg': cfg}))
     # 2. structured random stream: everything varies
-    for i in range((400 if quick else 3000) * boost):
+    for i in range((250 if quick else 3000) * boost):
         doc = gen_doc(rng, label_style='punct' if rng.random() < 0.15 else 'plain')
         out.append(('random', {'doc': doc, 'cfg': gen_cfg(rng)}))
     # 3. single-file templates
-    for i in range((40 if quick else 300) * boost):
+    for i in range((30 if quick else 300) * boost):
         doc = gen_doc(rng)
         out.append(('single-file', {'doc': doc, 'cfg': gen_cfg(rng, template=rng.choice(SINGLE_TEMPLATES))}))
     # 4. malformed: templates that cannot name every file, labels that collide after character substitution, odd structure
-    for i in range((40 if quick else 300) * boost):
+    for i in range((30 if quick else 300) * boost):
         r = rng.random()
         doc = gen_doc(rng, size=rng.randint(1, 5))
         cfg = gen_cfg(rng)
